@@ -3,7 +3,7 @@ import re
 from .facts import AnchorLost
 from .effects import Cone
 
-ACTION_DYN_RE = re.compile(r"^dyn for<'a> std::ops::Fn\(&'a libc::siginfo_t\) \+ std::marker::Send \+ std::marker::Sync$")
+ACTION_DYN_RE = re.compile(r"^dyn for<'a> core::ops::function::Fn\(&'a libc::[\w:]*siginfo_t\) \+ core::marker::Send \+ core::marker::Sync$")
 
 
 def handler(F):
